@@ -40,6 +40,9 @@ func verifAssert(c bool, label string) {
 	}
 }
 
+// verifAssertNow is verifAssert decided immediately (later code may rely on it).
+func verifAssertNow(c bool, label string) { verifAssert(c, label) }
+
 func verifFail(label string)  { verifFailures = append(verifFailures, label) }
 func verifReach(label string) {
 	if verifReached != nil {
